@@ -335,12 +335,30 @@ def guard_holds(body, call, polarity):
         req, oth = (t, f) if polarity else (f, t)
         if req is None or oth is None: continue
         if fl.may_succeed([req]) and fl.outcomes([oth]) == {'err'} and not fl.may_succeed([0], stop={sb}):
-            GUARD_EDGES[(body.name, sb)] = (sb, oth)
+            GUARD_EDGES[(body.name, sb)] = {(sb, oth)} | variant_reject_edges(body, call)
             return sb
     return None
 
 
-GUARD_EDGES = {}        # (function, switch block of a guard that holds) -> its rejecting edge
+GUARD_EDGES = {}        # (function, switch block of a guard that holds) -> its rejecting edges
+
+
+def variant_reject_edges(body, eq_call):
+    """`matches!(x, V(p) if p == K)` / `if let V(p) = x { if p == K .. }`: the comparison is made on the payload of a
+    variant of x; the arms of the discriminant test on x that do not lead to the comparison reject as well (x is not
+    even a V) and belong to the same guard.  Returns those edges (switch block, target)."""
+    out = set()
+    for a in eq_call.args:
+        if a['k'] not in ('copy', 'move'): continue
+        l, proj = origin(body, a['pl'])
+        if not (proj and isinstance(proj[0], dict) and 'dc' in proj[0]): continue
+        for bi, st in body.stmts():
+            if st['rv']['k'] != 'discr' or st['dst']['p'] or origin(body, st['rv']['pl']) != (l, []): continue
+            for kind, sb, sw in body.uses.get(st['dst']['l'], ()):
+                if kind != 'switch': continue
+                for t in {x[1] for x in sw['ts']} | {sw['else']}:
+                    if eq_call.bb not in body.reach([t]): out.add((sb, t))
+    return out
 
 
 def only_fails_by(ctx, rule, body, calls, guards, what):
@@ -352,7 +370,7 @@ def only_fails_by(ctx, rule, body, calls, guards, what):
     for c in calls:
         fam = ty_family(body.locals[c.dst['l']]) if not c.dst['p'] else None
         if fam: assume[c.bb] = fam[0]
-    cut = {GUARD_EDGES[(body.name, sb)] for sb in guards if (body.name, sb) in GUARD_EDGES}
+    cut = {e for sb in guards for e in GUARD_EDGES.get((body.name, sb), ())}
     out = fl.outcomes([0], assume=assume, cut=cut)
     ctx.counters['cfg_paths'] += 1
     ctx.check('err' not in out, rule, 'T-ERRFLOW', body.name, 'the function can fail although %s' % what, body.site(), outcomes=sorted(out))
@@ -365,6 +383,34 @@ def media_fns(body, operand):
         if x[0] == 'call':
             m = MT_FN.match(x[2])
             if m: out.append(m.group(1))
+    return out
+
+
+def media_texts(ctx):
+    """{v1_K: text of the media type the function media_types::v1_K() returns} (evaluated, see media_type_text)"""
+    got = getattr(ctx.F, '_c20_media_texts', None)
+    if got is None:
+        got = {}
+        for b in ctx.F.bodies.values():
+            m = MT_FN.match(b.name)
+            if m and b.kind == 'fn':
+                v = media_type_text(ctx, b)
+                if v is None:
+                    lits = sorted(set(string_literals(ctx, b)))
+                    v = lits[0] if len(lits) == 1 else None
+                got[m.group(1)] = v
+        ctx.F._c20_media_texts = got
+    return got
+
+
+def media_kinds(ctx, body, operand):
+    """the media types an operand denotes: the media_types::v1_K() it is computed from (media_fns), or -- the constant
+    spelled out, `matches!(ty, MediaType::Other(name) if name == "application/org.ommx.v1.artifact")`,
+    `ty.to_string() == ARTIFACT_TYPE` -- the v1_K whose text it evaluates to (text_of)"""
+    out = media_fns(body, operand)
+    if not out:
+        t = text_of(ctx, T.expr(body, operand, depth=30))
+        if t is not None: out = [k for k, v in media_texts(ctx).items() if v == t]
     return out
 
 
@@ -661,7 +707,7 @@ def kinds_rules(ctx):
             okl = bool(al)
             for c in al:
                 blob = ctx.S.slice_operand(b, c.args[2]); an = ctx.S.slice_operand(b, c.args[3])
-                args_ok = media_fns(b, c.args[1]) == [mt] and any(e in blob.call_objs for e in good) and not any(e in blob.call_objs for e in enc if e not in good) and 3 in an.params
+                args_ok = media_kinds(ctx, b, c.args[1]) == [mt] and any(e in blob.call_objs for e in good) and not any(e in blob.call_objs for e in enc if e not in good) and 3 in an.params
                 # exactly one layer per successful call: no other add_layer after this one
                 once = not (b.reach([c.target]) & {x.bb for x in al}) if c.target >= 0 else False
                 okl = okl and args_ok and once
@@ -682,7 +728,7 @@ def kinds_rules(ctx):
             okg = False; guard_sbs = []
             for c in eq_tests(g):
                 sides = [(T.expr(g, a), a) for a in c.args]
-                mts = [m for e, a in sides for m in media_fns(g, a)]
+                mts = [m for e, a in sides for m in media_kinds(ctx, g, a)]
                 desc = any(T.expr_has_call(e, 'media_type') and any(l in ctx.S.slice_operand(g, a).call_objs for l in used) for e, a in sides)
                 if mts == [mt] and desc:
                     sb = guard_holds(g, c, c.item == 'eq')
@@ -724,7 +770,7 @@ def kinds_rules(ctx):
                 for c in eq_tests(g):
                     if c.bb not in lo[4]: continue
                     sides = [(T.expr(g, a), a) for a in c.args]
-                    mts = [m for e, a in sides for m in media_fns(g, a)]
+                    mts = [m for e, a in sides for m in media_kinds(ctx, g, a)]
                     desc = any(T.expr_has_call(e, 'media_type') and nxt in ctx.S.slice_operand(g, a).call_objs for e, a in sides)
                     if mts != [mt] or not desc: continue
                     for gd in T.guards_from_call(g, c):
@@ -861,11 +907,7 @@ def types_rules(ctx, repo):
             ctx.fn(b)
             # "lit".to_string() ≡ String::from("lit") ≡ "lit".to_owned() ≡ "lit".into(): the one string literal of the function
             # or built: format!("application/org.ommx.v1.{name}") in a helper, PREFIX.to_owned() + "instance", concat
-            v = media_type_text(ctx, b)
-            if v is None:
-                lits = sorted(set(string_literals(ctx, b)))
-                v = lits[0] if len(lits) == 1 else None
-            vals[m.group(1)] = v
+            vals[m.group(1)] = media_texts(ctx).get(m.group(1))
     want = {'v1_artifact': 'application/org.ommx.v1.artifact', 'v1_config': 'application/org.ommx.v1.config+json', 'v1_instance': 'application/org.ommx.v1.instance',
             'v1_parametric_instance': 'application/org.ommx.v1.parametric-instance', 'v1_solution': 'application/org.ommx.v1.solution', 'v1_sample_set': 'application/org.ommx.v1.sample-set'}
     ctx.check(set(vals) == set(want), R + '/function-set', 'T-CONST', 'artifact::media_types', 'media type functions: %s' % sorted(vals))
@@ -889,14 +931,14 @@ def types_rules(ctx, repo):
     for b in ctors:
         ctx.fn(b)
         for x, c in creations(b):
-            mts = media_fns(x, c.args[1])
+            mts = media_kinds(ctx, x, c.args[1])
             ctx.check(mts == ['v1_artifact'], R + '/constructor/' + b.hdr.get('item', '?'), 'T-CONST', b.name, 'artifact type passed to OciArtifactBuilder::new is %s' % mts, x.site(c.bb))
     g = ctx.method(R + '/get_manifest/anchor', ART, 'get_manifest')
     if g is not None:
         at = [c for c in g.calls if c.item == 'artifact_type' and 'ImageManifest' in c.name]
         okg = False; whole = False
         for c in eq_tests(g):
-            mts = [m for a in c.args for m in media_fns(g, a)]
+            mts = [m for a in c.args for m in media_kinds(ctx, g, a)]
             from_manifest = any(x in ctx.S.slice_operand(g, a).call_objs for a in c.args for x in at)
             if mts == ['v1_artifact'] and from_manifest and guard_holds(g, c, c.item == 'eq') is not None:
                 okg = True
@@ -994,7 +1036,8 @@ SAME_VALUE = re.compile(
     r'as std::convert::(From|Into)<.*>>::(from|into)$|'                                                                               # String <-> &str <-> Box<str>
     r'Vec::<.*>::as_slice$|Vec::<.*>::into_boxed_slice$|\]>::(to_vec|into_vec|iter)$|'                                               # the same elements as slice / Vec
     r'as std::iter::IntoIterator>::into_iter$|as std::iter::Iterator>::(by_ref|peekable|fuse|copied|cloned)$|'                       # the same elements as iterator
-    r'Box::<.*>::new$')
+    r'Box::<.*>::new$|'
+    r'DateTime::<.*>::(with_timezone|fixed_offset|to_utc)(::<.*>)?$')                                                                # the same instant in another time zone (equal as DateTime)
 COLLECT_INTO = re.compile(r'^(std::vec::Vec|std::collections::VecDeque|std::boxed::Box<\[)')                                          # collect() keeps elements and order only for these
 SAME_ELEMENT_FN = re.compile(r'String::as_str$|Deref>::deref$|AsRef<.*>>::as_ref$|Clone>::clone$|ToOwned>::to_owned$|ToString>::to_string$|Into<.*>>::into$|From<.*>>::from$|Borrow<.*>>::borrow$')   # it.map(String::as_str)
 MAP_GET = re.compile(r'(HashMap|BTreeMap)::<.*>::get(::<.*>)?$|artifact::annotations::\w+::get$')        # the stored text of a key: the map's get / the type's private `get(key)`
@@ -1004,7 +1047,7 @@ MAP_GET = re.compile(r'(HashMap|BTreeMap)::<.*>::get(::<.*>)?$|artifact::annotat
 # (trim, filter, map, skip, to_lowercase, splitn, ..) means the accessor does not return what was set
 CODECS = [
     ((), ()),                                                                                                     # text stored and returned as it is
-    ((r'DateTime::<.*>::to_rfc3339$',), (r'DateTime::<.*>::parse_from_rfc3339$', r'DateTime::<.*>::with_timezone::<chrono::Local>$')),   # time stamps
+    ((r'DateTime::<.*>::to_rfc3339$',), (r'DateTime::<.*>::parse_from_rfc3339$',)),   # time stamps; the zone conversion (.with_timezone(&Local) ≡ .into() ≡ DateTime::<Local>::from) keeps the instant: SAME_VALUE
     ((r'<usize as std::string::ToString>::to_string$',), (r'str>::parse::<usize>$|<usize as std::str::FromStr>::from_str$',)),          # counts
     ((r'<ocipkg::Digest as std::string::ToString>::to_string$',), (r'ocipkg::Digest::new$',)),                          # digests
     ((r'serde_json::to_string::<',), (r'serde_json::from_str::<',)),                                                 # user parameters as JSON
